@@ -200,7 +200,7 @@ def execute(cmd, params, arrays):
 def snap(x):
     if x != x or x in (float("inf"), float("-inf")):
         return [0, -2]
-    fr = Fraction(float(x)).limit_denominator(20000)
+    fr = Fraction(float(x)).limit_denominator(1000000)
     if abs(float(fr) - float(x)) <= 1e-9 * max(1.0, abs(float(x))) and abs(fr.numerator) < 2 ** 30:
         return [fr.numerator, fr.denominator]
     return [int(max(-2e9, min(2e9, float(x) * 1000))), -1]
@@ -286,7 +286,8 @@ def run_family(f, variant=0, shape_fn=None, perm_seed=None, raw_hook=None):
                 random.Random(perm_seed + i).shuffle(perm)
             obs[i] = []
             for e, (cmd, params, _) in enumerate(out):
-                arrays = [build_array(a[0], a[1] if len(a[1]) == L else a[1], variant, shape if len(a[1]) == L else None, perm if len(a[1]) == L else None)
+                arrays = [build_array(a[0], a[1], variant, tuple(a[2]), None) if len(a) >= 3 else
+                          build_array(a[0], a[1], variant, shape if len(a[1]) == L else None, perm if len(a[1]) == L else None)
                           for a in ins]
                 res = execute(cmd, params, arrays)
                 nexec += 1
@@ -357,7 +358,7 @@ def describe_case(ins, entry):
     def cell(c):
         return "--" if c[1] == 0 else (str(c[0]) if c[1] == 1 else "%d/%d" % (c[0], c[1]))
 
-    return {"inputs": [[a[0], [cell(c) for c in a[1]]] for a in ins], "command": entry[0],
+    return {"inputs": [[a[0], [cell(c) for c in a[1]]] + ([a[2]] if len(a) >= 3 else []) for a in ins], "command": entry[0],
             "params": [[k, (v if isinstance(v, str) else ([cell(x) for x in v] if (v == [] or isinstance(v[0], list)) else cell(v)))] for k, v in entry[1]]}
 
 
@@ -469,7 +470,7 @@ def check_C06(tier):
                        "all points are executed on the real commands (packed into arrays) and every observation is validated by TLC against Sem. "
                        "non-trivial = lattice point with at least two distinct cell values")
     chk.cov["exhaustive"] = True
-    chk.assumptions += ["float results within 1e-9 relative of a rational with denominator <= 20000 are identified with it",
+    chk.assumptions += ["float results within 1e-9 relative of a rational with denominator <= 1 000 000 are identified with it",
                         "cell-wise commands may be evaluated on packed arrays (cell independence is C05's subject)"]
     return chk.finish()
 
@@ -545,7 +546,7 @@ def check_C07(tier):
                        "arithmetic identities; all points are executed on the real commands per kind combination and validated by TLC. "
                        "non-trivial = point with at least two distinct cell values")
     chk.cov["exhaustive"] = True
-    chk.assumptions += ["float results within 1e-9 relative of a rational with denominator <= 20000 are identified with it",
+    chk.assumptions += ["float results within 1e-9 relative of a rational with denominator <= 1 000 000 are identified with it",
                         "only mathematical values are compared (result dtype is unspecified)"]
     return chk.finish()
 
@@ -566,6 +567,8 @@ def check_C08(tier):
     s = Session(chk, "C08", only_cmds=CONV)
     for f in fams:
         s.add_family(f, variant=core.SEED % 4, label="1-D")
+        # the mappings are the same on grids: one rank-2 arrangement of the same cells
+        s.add_family(f, variant=core.SEED % 4, shape_fn=shape_fn_for(f, 1 if f.L != 3 else 3), label="rank-2 grid")
     s.finish()
     chk.cov["rule"] = ("TLC enumerates raw cells (k/2, k=-4..8; integers -2..4; missing) for the cell-wise conversions with threshold pairs, directions, category tables "
                        "and curves in several control-point orders (incl. error entries), fuzzy cells for CvtFromFuzzy, and every array of length 2-3 (4 thorough) over "
@@ -708,7 +711,7 @@ def check_C04(tier):
     fams += [Family("fz", 3, laws=["FuzzyInRange"]), Family("cvc", 1, laws=["FuzzyInRange"]), Family("cvc", 1, wide=True, laws=["FuzzyInRange"]),
              Family("cva", 1, L=3, laws=["FuzzyInRange"])]
     if tier == "thorough":
-        fams += [Family("cva", 1, L=4, laws=["FuzzyInRange"]), Family("fz", 4, mv=False, wide=True, laws=["FuzzyInRange"])]
+        fams += [Family("cva", 1, L=4, laws=["FuzzyInRange"]), Family("fz", 4, mv=False, laws=["FuzzyInRange"])]
     gen_families(fams)
     add_tlc_runs(chk, fams)
     s = Session(chk, "C04", only_cmds=FUZZY_PRODUCERS, clauses={"OutOfRange"})
